@@ -48,6 +48,7 @@ type FuncContract struct {
 	Opts      map[string]string
 	Used      bool
 	CallSites []*CallSiteClause
+	Updates   []*GhostUpdate
 }
 
 func (c *FuncContract) Key() string { return c.Pkg + "::" + c.Name }
@@ -101,6 +102,13 @@ type CallersOnly struct {
 	Where   string
 }
 
+// GhostUpdate: ghost assignment executed at every return of the function (ghost code).
+type GhostUpdate struct {
+	Var   string
+	Expr  *Spec
+	Where string
+}
+
 type CallSiteClause struct {
 	Callee string
 	Clause *Clause
@@ -109,6 +117,7 @@ type CallSiteClause struct {
 type Contracts struct {
 	FieldInvs []*FieldInv
 	GlobalInvs []*FieldInv
+	TypeInvs  []*FieldInv
 	Callers   []*CallersOnly
 	GhostVars map[string]string
 	GhostFields map[string]string
@@ -368,6 +377,17 @@ func (cs *Contracts) LoadLines(pkg string, lines []string, wheres []string) erro
 			}
 			cs.GhostFields[fields[1]] = fields[2]
 			cur = nil
+		case "typeinv":
+			idx := strings.Index(rest, ":")
+			if idx < 0 {
+				return fmt.Errorf("%s: typeinv needs a type", where)
+			}
+			e, err := ParseSpec(strings.TrimSpace(rest[idx+1:]))
+			if err != nil {
+				return fmt.Errorf("%s: %v", where, err)
+			}
+			cs.TypeInvs = append(cs.TypeInvs, &FieldInv{Pkg: pkg, Type: strings.TrimSpace(rest[:idx]), Expr: e, Where: where})
+			cur = nil
 		case "globalinv":
 			idx := strings.Index(rest, ":")
 			if idx < 0 {
@@ -412,6 +432,20 @@ func (cs *Contracts) LoadLines(pkg string, lines []string, wheres []string) erro
 			}
 			cs.Callers = append(cs.Callers, co)
 			cur = nil
+		case "ghost-at-return":
+			// ghost-at-return <var> := <expr>
+			if cur == nil {
+				return fmt.Errorf("%s: ghost-at-return outside func block", where)
+			}
+			ix := strings.Index(rest, ":=")
+			if ix < 0 {
+				return fmt.Errorf("%s: ghost-at-return needs :=", where)
+			}
+			e, err := ParseSpec(strings.TrimSpace(rest[ix+2:]))
+			if err != nil {
+				return fmt.Errorf("%s: %v", where, err)
+			}
+			cur.Updates = append(cur.Updates, &GhostUpdate{Var: strings.TrimSpace(rest[:ix]), Expr: e, Where: where})
 		case "callsite":
 			// callsite <callee-name> requires[Cxx] label: expr
 			if cur == nil {
